@@ -259,6 +259,20 @@ fn answers(
             list.push(Call::StablePrefilter);
         }
         let mut out = Vec::new();
+        if und <= 14 {
+            // the single-formula rewriting variants (prepared from the parser and internal)
+            let bio_rw = adf_bdd::adfbiodivine::Adf::from_parser_with_stm_rewrite(p);
+            let bio = adf_bdd::adfbiodivine::Adf::from_parser(p);
+            for (nm, v) in [
+                ("stable_bdd_representation(parser rewriting)", a.stable_bdd_representation(&bio_rw)),
+                ("stable_bdd_representation(internal rewriting)", a.stable_bdd_representation(&bio)),
+                ("biodivine.stable_bdd_representation(parser rewriting)", bio_rw.stable_bdd_representation()),
+            ] {
+                let mut l: Vec<Interp> = v.iter().map(|i| sut::to_logical(&perm, &sut::abs(i))).collect::<Result<_, _>>()?;
+                l.sort();
+                out.push((nm.to_string(), l));
+            }
+        }
         for call in list {
             if let Abs::Interps(v) = calls::abstract_raw(&calls::exec(&mut a, &call)?, false) {
                 let mut l: Vec<Interp> = v.iter().map(|i| sut::to_logical(&perm, i)).collect::<Result<_, _>>()?;
